@@ -401,19 +401,40 @@ func body(c *vk.Ctx) {
 	}
 	all := ops()
 	c.Bound("operations", len(all))
+	if c.Replay != "" {
+		// a violation names (operation, boundary, mode); the replay re-enumerates every boundary of that operation
+		// (one operation takes about a second), or the two special families when the violation names no operation
+		var rf struct {
+			Case struct {
+				Op string `json:"op"`
+			} `json:"case"`
+		}
+		if err := vk.ReadJSON(c.Replay, &rf); err != nil {
+			c.Broken("replay file: %v", err)
+			return
+		}
+		if c.Shard != 0 {
+			return
+		}
+		found := false
+		for _, op := range all {
+			if op.Name == rf.Case.Op {
+				found = true
+				runOp(c, f, op)
+			}
+		}
+		if !found {
+			refusedSnapshot(c, f)
+			spaceCreate(c, f)
+		}
+		return
+	}
 	snapshotsTaken := 0
 	for i, op := range all {
 		if !c.Mine(i) {
 			continue
 		}
-		if c.Replay != "" {
-			continue
-		}
 		snapshotsTaken += runOp(c, f, op)
-	}
-	if c.Replay != "" {
-		c.Broken("C10 replay: re-run the check; every case is identified by (operation, boundary index, mode)")
-		return
 	}
 	_ = snapshotsTaken
 	if c.Mine(len(all)) {
